@@ -14,9 +14,8 @@ CfgA == [np |-> 3,
          default |-> <<<<5>>, <<9>>, <<1, 0>>>>, stored0 |-> <<<<>>, <<>>, <<>>>>]
 NotifsA == {[p |-> 1, v |-> <<3>>]}
 
-OpsQuick == {Op("set", 1, I(9)), Op("set", 1, I(256)), Op("set", 3, I(1)),
-             Op("read", 2, NoV), Op("getstate", 1, NoV), Op("getstate", 2, NoV)}
-OpsMore == {Op("set", 0, I(1)), Op("store", 1, NoV), Op("get", 1, NoV)}
+OpsQuick == {Op("set", 1, I(9)), Op("set", 1, I(256)), Op("getstate", 1, NoV), Op("getstate", 2, NoV)}
+OpsMore == {Op("set", 3, I(1)), Op("read", 2, NoV), Op("set", 0, I(1)), Op("store", 1, NoV), Op("get", 1, NoV)}
 \* without two outstanding queries of the same command (what the code as it is cannot serve)
 OpsAsIs  == OpsQuick \cup OpsMore \cup {Op("getstate", 2, NoV), Op("getdefault", 2, NoV), Op("store", 2, NoV)}
 OpsThorough == OpsQuick \cup OpsMore \cup {Op("set", 2, I(4)), Op("read", 1, NoV), Op("getstate", 2, NoV), Op("clear", 1, NoV),
